@@ -37,6 +37,13 @@ func c16Cases() []c16Case {
 		{"component-two-distinct", map[string]string{"p.vuego": `<template include="c.vuego"></template><template include="c.vuego"></template>`, "c.vuego": `<i v-once>M1</i><b v-once>M2</b>`}, "p.vuego", map[string]int{"M1": 1, "M2": 1}},
 		{"component-in-loop", map[string]string{"p.vuego": `<div v-for="x in items"><template include="c.vuego"></template></div>`, "c.vuego": `<i v-once>M1</i><b>M2</b>`}, "p.vuego", map[string]int{"M1": 1, "M2": 3}},
 		{"layout-and-page", map[string]string{"p.vuego": "---\nlayout: main\n---\n<i v-once>M1</i><i v-once>M2</i>", "layouts/main.vuego": `<b v-once>M3</b><b v-once>M4</b><div v-html="content"></div>`}, "p.vuego", map[string]int{"M1": 1, "M2": 1, "M3": 1, "M4": 1}},
+		// v-once combined with conditionals, instantiated several times (loop iterations, repeated includes)
+		{"once-with-vif-true-in-loop", map[string]string{"p.vuego": `<div v-for="x in items"><b v-if="items" v-once>M1</b><i>M2</i></div>`}, "p.vuego", map[string]int{"M1": 1, "M2": 3}},
+		{"once-on-velse-in-loop", map[string]string{"p.vuego": `<div v-for="x in items"><p v-if="nope">N</p><b v-else v-once>M1</b><i>M2</i></div>`}, "p.vuego", map[string]int{"M1": 1, "M2": 3, "N": 0}},
+		{"once-on-velseif-in-loop", map[string]string{"p.vuego": `<div v-for="x in items"><p v-if="nope">N</p><b v-else-if="items" v-once>M1</b><u v-else>U</u><i>M2</i></div>`}, "p.vuego", map[string]int{"M1": 1, "M2": 3, "U": 0}},
+		{"once-with-vif-in-component-thrice", map[string]string{"p.vuego": `<template include="c.vuego"></template><template include="c.vuego"></template><template include="c.vuego"></template>`, "c.vuego": `<b v-if="items" v-once>M1</b><p v-if="nope">N</p><u v-else v-once>M2</u><i>M3</i>`}, "p.vuego", map[string]int{"M1": 1, "M2": 1, "M3": 3}},
+		{"once-on-vfor-else-in-loop", map[string]string{"p.vuego": `<div v-for="x in items"><p v-for="q in nope">N</p><b v-else v-once>M1</b><i>M2</i></div>`}, "p.vuego", map[string]int{"M1": 1, "M2": 3}},
+		{"once-inside-vif-parent-in-loop", map[string]string{"p.vuego": `<div v-for="x in items"><section v-if="items"><b v-once>M1</b></section><section v-else><b v-once>M2</b></section></div>`}, "p.vuego", map[string]int{"M1": 1, "M2": 0}},
 		{"vif-branch", map[string]string{"p.vuego": `<i v-if="items" v-once>M1</i><b v-else v-once>M2</b><i v-once>M3</i>`}, "p.vuego", map[string]int{"M1": 1, "M2": 0, "M3": 1}},
 	}
 }
